@@ -38,6 +38,18 @@ type c06Kept struct {
 
 var c06EncOpts = []encoder.Options{0, encoder.SortMapKeys, encoder.EscapeHTML, encoder.ValidateString, encoder.EscapeHTML | encoder.SortMapKeys | encoder.CompactMarshaler, encoder.NoNullSliceOrMap, encoder.EscapeHTML | encoder.ValidateString}
 
+// c06Ref is what the encoder gives for v when its pools hold nothing from this run's history:
+// the pools are set aside for the call and put back afterwards, so the reference neither
+// depends on nor disturbs the history under test.
+func c06Ref(v interface{}, opts encoder.Options) (ref []byte, err error) {
+	simrt.PoolsAside(func() {
+		var b []byte
+		b, err = encoder.Encode(v, opts)
+		ref = append([]byte(nil), b...)
+	})
+	return
+}
+
 func runC06(c *Ctx) Result {
 	t := c.T
 	if c06Arena == nil {
@@ -92,7 +104,9 @@ func runC06(c *Ctx) Result {
 	}
 	pad := func() string {
 		// drive the output size to both sides of the pool limit
-		switch g.d(4) {
+		switch g.d(5) {
+		case 4: // invalid UTF-8 (ValidateString rewrites the output into a second buffer), with HTML to escape
+			return "bad\xff\xfeutf8" + strings.Repeat("<&>", g.d(20)) + strings.Repeat("\xc3", g.d(3))
 		case 0:
 			return strings.Repeat("p<", g.d(40))
 		case 1:
@@ -110,8 +124,7 @@ func runC06(c *Ctx) Result {
 		case 0, 1, 2: // Marshal / MarshalString / MarshalIndent under option sets
 			v := map[string]interface{}{"v": bigOrSmall().Interface(), "pad": pad()}
 			opts := c06EncOpts[g.d(len(c06EncOpts))]
-			ref, rerr := encoder.Encode(v, opts|encoder.SortMapKeys)
-			ref = append([]byte(nil), ref...)
+			ref, rerr := c06Ref(v, opts|encoder.SortMapKeys)
 			var out []byte
 			var err error
 			switch kind {
@@ -129,8 +142,7 @@ func runC06(c *Ctx) Result {
 			default:
 				name = "Marshal(ConfigStd)"
 				out, err = sonic.ConfigStd.Marshal(v)
-				ref, rerr = encoder.Encode(v, encoder.SortMapKeys|encoder.EscapeHTML|encoder.CompactMarshaler)
-				ref = append([]byte(nil), ref...)
+				ref, rerr = c06Ref(v, encoder.SortMapKeys|encoder.EscapeHTML|encoder.CompactMarshaler|encoder.ValidateString)
 			}
 			hist = append(hist, name)
 			if (err != nil) != (rerr != nil) {
@@ -146,8 +158,7 @@ func runC06(c *Ctx) Result {
 		case 3, 4: // EncodeInto a caller buffer: geometry from the tape
 			v := map[string]interface{}{"v": bigOrSmall().Interface(), "pad": pad()}
 			opts := c06EncOpts[g.d(len(c06EncOpts))] | encoder.SortMapKeys
-			ref, rerr := encoder.Encode(v, opts)
-			ref = append([]byte(nil), ref...)
+			ref, rerr := c06Ref(v, opts)
 			pl := g.d(33)
 			capN := pl + g.d(2*len(ref)+40)
 			if g.d(4) == 0 {
